@@ -15,7 +15,8 @@ REWRITES = [
     # R6: the tagged pointer is read through an accessor of the model
     Rewrite('R6-tag', r'\b(self|other)\.ptr\.get\(\)\.get\(\)', r'\1.tag()', min_count=5),
     Rewrite('R6-tag', r'self\.ptr\.set\(inline_tag\(new_len\)\)', 'self.set_tag(inline_tag(new_len))', only=('Tendril::push_uninitialized',), min_count=1),
-    Rewrite('R15-msg', r'\.expect\(OFLOW\)', '.unwrap()', only=('Tendril::push_uninitialized',)),
+    Rewrite('R15-msg', r'\.expect\(OFLOW\)', '.unwrap()', only=('Tendril::push_uninitialized', 'Tendril::force_reserve')),
+    Rewrite('R2-generics', r'let mut t: Tendril = Tendril::new\(\);', 'let mut t: Tendril = Tendril::new();'),
     Rewrite('R6-tag', r'self\.ptr\s*\.set\(unsafe \{ NonZeroUsize::new_unchecked\(EMPTY_TAG\) \}\)', 'self.set_tag(EMPTY_TAG)', only=('Tendril::clear',), min_count=6),
     # R1: interior mutability (ptr is a Cell, the union is an UnsafeCell) made explicit
     Rewrite('R1-receiver', r'unsafe fn unsafe_subtendril\(&self,', 'unsafe fn unsafe_subtendril(&mut self,', only=('Tendril::unsafe_subtendril',)),
@@ -24,6 +25,7 @@ REWRITES = [
     # the format parameter: validity checks through model functions over an uninterpreted predicate
     Rewrite('R2-format', r'\bF::validate_(prefix|suffix|subseq)\(', r'f_validate_\1('),
     Rewrite('R2-format', r'\bF::validate\(', 'f_validate('),
+    Rewrite('R2-format', r'\bF::char_indices\(', 'f_char_indices(', only=('Tendril::pop_front_char',), min_count=1),
     # R12: the scrutinee of a match with a guarded arm is bound first
     Rewrite('R12-scrutinee', r'match self\.tag\(\) \{', 'let __t = self.tag(); match __t {', only=('Tendril::len32',)),
     Rewrite('R11-constpat', r'\bEMPTY_TAG => 0,', '0xF => 0,', only=('Tendril::len32',)),
@@ -44,6 +46,8 @@ PARTS = [
     Item(T, 'fn', 'inline_tag', rewrites=(Rewrite('R6-tag', r'-> NonZeroUsize', '-> usize'),
                                           Rewrite('R6-tag', r'unsafe \{ NonZeroUsize::new_unchecked\((.*)\) \}', r'\1'))),
     t('push_uninitialized'),
+    t('pop_front_char'),
+    t('from_byte_slice_without_validating'), t('try_from_byte_slice'), t('with_capacity'), t('force_reserve'), t('reserve'),
     Raw('} // verus!\nfn main() {}'),
 ]
 DROPS = ['the format and atomicity type parameters (validity is an uninterpreted predicate; reference counts are not modelled)',
